@@ -221,9 +221,11 @@ def search(ctx, broken, seeds):
                     if got != want or c.is_enabled(x) is not (claimer not in ("unix_disabled", "django_disabled")):
                         return {"input": {"op": "enable-two-disabled-hashers", "schemes": sl, "string": x}, "observed": {"enable": got, "is_enabled": c.is_enabled(x)},
                                 "expected": {"enable": want, "recognised_by": claimer}}
-    lists = [["md5_crypt", "sha256_crypt", "des_crypt", "ldap_md5"]]
+    # (a catch-all scheme listed AFTER the disabled hasher must not get to see disabled strings: the configured order is the order of attribution)
+    lists = [["md5_crypt", "sha256_crypt", "des_crypt", "ldap_md5"], ["md5_crypt", "sha256_crypt", "plaintext"], ["ldap_md5", "ldap_plaintext"]]
     for schemes in lists:
-        for pos in range(len(schemes) + 1):
+        last = min([schemes.index(n) for n in ("plaintext", "ldap_plaintext") if n in schemes] + [len(schemes)])
+        for pos in range(last + 1):
             for dname, kw in (("unix_disabled", {}), ("unix_disabled", {"unix_disabled__marker": "*"}), ("django_disabled", {})):
                 sl = schemes[:pos] + [dname] + schemes[pos:]
                 c = CryptContext(sl, **kw)
